@@ -2,7 +2,7 @@
 # confirm_mutant.sh <Cxx> <mN>: in the scratch worktree /tmp/wt_<Cxx> confirm that the seeded change /tmp/mut/<Cxx>/<mN>.diff
 # compiles, passes the repository's suite, and that its demonstration fails with it and passes without it.
 # Writes /tmp/mut/<Cxx>/<mN>_confirm.txt
-ID=$1; M=$2; WT=/tmp/wt_$ID; D=/tmp/mut/$ID; OUT=$D/${M}_confirm.txt
+ID=$1; M=$2; WT=/tmp/wt_$ID; D=${MUTDIR:-/tmp/mut}/$ID; OUT=$D/${M}_confirm.txt
 demo() {  # $1 = tag
 	if [ -f $D/${M}_demo.sh ]; then (cd $D && bash ./${M}_demo.sh $WT) > $D/${M}_demo_$1.out 2>&1; echo $?
 	else (cd $D && gcc -g -O0 -I$WT/include -I$WT/lib ${M}_demo.c $WT/lib/.libs/libqb.a -lpthread -ldl -lrt -o ${M}_demo.bin 2>&1 && ./${M}_demo.bin) > $D/${M}_demo_$1.out 2>&1; echo $?
